@@ -11,8 +11,10 @@ def h2c_job(w, i, l):
     os.makedirs(d, exist_ok=True)
     C.stage_specs(d, "C16")
     r255 = l["curve"] == "R255"
-    module = "R255Job" if r255 else "H2CJob"
+    module = "R255Job" if r255 else ("G2HashJob" if l["curve"] == "BLS12381G2" else "H2CJob")
     job = {"uniform": l["uniform"], "enc": l["x"]} if r255 else {k: l[k] for k in ("curve", "uniform", "x", "y", "identity")}
+    if module == "G2HashJob":
+        job = {"uniform": l["uniform"], "x0": l["x"][:48], "x1": l["x"][48:], "y0": l["y"][:48], "y1": l["y"][48:], "identity": l["identity"]}
     json.dump(job, open(os.path.join(d, "job.json"), "w"))
     r = C.tlc(d, module, module + ".cfg", workers=1, heap="3g", timeout=3300, stack="256m")
     vp = os.path.join(d, "verdict.json")
@@ -50,11 +52,11 @@ def hash_to_curve(w, drv, thorough, rep):
     hl = [l for l in hl if not l["panics"]]
     rnd = random.Random(C.SEED)
     pick = []
-    for curve, nq in (("R255", 4), ("P256", 4), ("P384", 1), ("BLS12381G1", 1), ("P521", 0)):
+    for curve, nq in (("R255", 4), ("P256", 4), ("P384", 1), ("BLS12381G1", 1), ("P521", 0), ("BLS12381G2", 0)):
         ls = [l for l in hl if l["curve"] == curve]
         fixed, rest = ls[:2], ls[2:]
         rnd.shuffle(rest)
-        pick += ls if thorough else (fixed[1:2] + rest)[:nq]
+        pick += (ls[:3] if curve == "BLS12381G2" else ls) if thorough else (fixed[1:2] + rest)[:nq]
     anchor = [l for l in hl if l["curve"] == "P256" and l["class"] == "rfc9380-empty"][0]
     if bytes(anchor["x"]).hex() != "2c15230b26dbc6fc9a37051158c95b79656e17a1a920b11394ca91c44247d3e4":
         rep.violation("h2c:P256:rfc9380-empty", {"observed": anchor, "explain": "differs from the RFC 9380 appendix J.1.1 vector"})
@@ -119,12 +121,12 @@ def run(tier, rep, replay=None):
             executions=sum(l["total"] for l in lines), objects=sorted({l["obj"] for l in lines}))
     for l in lines[:2] + [x for x in lines if x["ev"] == "proof"][:2] + [x for x in lines if x["ev"] == "ot"][:1]:
         rep.sample(l)
-    rep.assumptions += ["hash-to-group: TLC recomputes group.HashToElement of all four OPRF groups and bls12381.G1.Hash from RFC 9380 / RFC 9496 on a sample (ExpanderJobs.tla + H2CJob.tla / R255Job.tla; P-521 in thorough only); hashing to G2 is not recomputed",
+    rep.assumptions += ["hash-to-group: TLC recomputes group.HashToElement of all four OPRF groups and bls12381.G1.Hash / G2.Hash from RFC 9380 / RFC 9496 on a sample (ExpanderJobs.tla + H2CJob.tla / G2HashJob.tla / R255Job.tla; P-521 and G2 in thorough only)",
                         "toy-group algebra (Q = 7 quick; 11 and 13 thorough) stands for the real groups' algebra"]
 
 
 MANIFEST = {
- "text": "H2CJob.tla is RFC 9380 hash_to_curve for P256_XMD:SHA-256_SSWU_RO_, P384_XMD:SHA-384_SSWU_RO_, P521_XMD:SHA-512_SSWU_RO_ and BLS12381G1_XMD:SHA-256_SSWU_RO_ (the latter with the 11-isogeny evaluated by Horner's rule, projective addition / doubling on y^2 = x^3 + 4 and multiplication by h_eff one action per bit; hash_to_field reduction, simplified SWU with inv0 and square root as exponentiations one action per bit, sgn0, affine point addition; Barrett arithmetic on base-4096 digits, constants checked by ASSUME) with which - together with ExpanderJobs.tla for expand_message_xmd - TLC recomputes group.HashToElement (the HashToGroup of the RFC 9497 suites) and bls12381.G1.Hash (the message hash of BLS signatures in G1) for sampled messages and domain-separation tags incl. over-long and empty tags, after reproducing RFC 9380 J.1.1 and refusing a falsified point; R255Job.tla is hash_to_ristretto255 (RFC 9380 appendix B: the one-way map of RFC 9496 4.3.4 with SQRT_RATIO_M1 on both halves, complete addition, the encoding of 4.3.2; constants checked against their defining equations). Oprf.tla checks the algebra of OPRF/POPRF blinding, DLEQ and Schnorr completeness, DLEQ algebraic soundness (a false statement fits at most one challenge) and OT key agreement for ALL keys, blinds and inputs of a toy prime-order group; QnDleq.tla (N=77) shows completeness and that a verifier taking the security parameter from the proof accepts (Z, C=0, parameter 0) for every statement. The driver runs all four suites x three modes (derived and random keys, batches of 1-4, input lengths 0..65535, structured blinds 1 / order-1 / random, batch-of-one consistency, FullEvaluate and VerifyFinalize) and every alteration site (evaluated element changed / swapped / identity, proof c or s bit-flipped or zeroed, other key, other info, other blinded elements), DLEQ batch proofs, Schnorr proofs and Qn-DLEQ proofs with every statement / proof / context alteration and degenerate assembly (zero challenge, zero response, identity elements, prover-chosen parameter, proof made for another key), and both OT choice bits incl. decrypting the other ciphertext with the derived key; TLC judges the recorded outcomes against ProofVerdict.tla.",
+ "text": "H2CJob.tla is RFC 9380 hash_to_curve for P256_XMD:SHA-256_SSWU_RO_, P384_XMD:SHA-384_SSWU_RO_, P521_XMD:SHA-512_SSWU_RO_ and BLS12381G1_XMD:SHA-256_SSWU_RO_ (the latter with the 11-isogeny evaluated by Horner's rule, projective addition / doubling on y^2 = x^3 + 4 and multiplication by h_eff one action per bit; hash_to_field reduction, simplified SWU with inv0 and square root as exponentiations one action per bit, sgn0, affine point addition; Barrett arithmetic on base-4096 digits, constants checked by ASSUME) with which - together with ExpanderJobs.tla for expand_message_xmd - TLC recomputes group.HashToElement (the HashToGroup of the RFC 9497 suites) and bls12381.G1.Hash (the message hash of BLS signatures in G1) for sampled messages and domain-separation tags incl. over-long and empty tags, after reproducing RFC 9380 J.1.1 and refusing a falsified point; G2HashJob.tla is the same for BLS12381G2_XMD:SHA-256_SSWU_RO_ over Fp2 (inverse and square root through the norm, sgn0 of Fp2, the 3-isogeny, multiplication by the 636-bit h_eff; about 10 minutes per call, thorough tier). R255Job.tla is hash_to_ristretto255 (RFC 9380 appendix B: the one-way map of RFC 9496 4.3.4 with SQRT_RATIO_M1 on both halves, complete addition, the encoding of 4.3.2; constants checked against their defining equations). Oprf.tla checks the algebra of OPRF/POPRF blinding, DLEQ and Schnorr completeness, DLEQ algebraic soundness (a false statement fits at most one challenge) and OT key agreement for ALL keys, blinds and inputs of a toy prime-order group; QnDleq.tla (N=77) shows completeness and that a verifier taking the security parameter from the proof accepts (Z, C=0, parameter 0) for every statement. The driver runs all four suites x three modes (derived and random keys, batches of 1-4, input lengths 0..65535, structured blinds 1 / order-1 / random, batch-of-one consistency, FullEvaluate and VerifyFinalize) and every alteration site (evaluated element changed / swapped / identity, proof c or s bit-flipped or zeroed, other key, other info, other blinded elements), DLEQ batch proofs, Schnorr proofs and Qn-DLEQ proofs with every statement / proof / context alteration and degenerate assembly (zero challenge, zero response, identity elements, prover-chosen parameter, proof made for another key), and both OT choice bits incl. decrypting the other ciphertext with the derived key; TLC judges the recorded outcomes against ProofVerdict.tla.",
  "note": "Seeded random keys / inputs (2 repetitions per suite and mode in quick, 20 in thorough).",
  "technique": "TLC exhaustive check of protocol algebra on toy groups + alteration-site scenarios replayed on real code + TLC judgement of recorded outcomes",
 }
